@@ -225,15 +225,16 @@ def func_region(meta, fname):
     return None
 
 
-def build_and_run(unit, workdir, vacuity=False, rlimit=None, force=None, attempt=0):
+def build_and_run(unit, workdir, vacuity=False, rlimit=None, force=None, attempt=0, skipv=None):
     """Full pipeline for one unit. Returns result dict; never raises for expected failures."""
     out = {'unit': unit, 'vacuity': vacuity, 'status': 'ok', 'reason': None}
     t0 = time.time()
     force = dict(force or {})
+    skipv = dict(skipv or {})
     try:
         with EXTRACT_LOCK:
             extract.SrcFile.cache.clear()
-            meta = extract.build_unit(unit, workdir, vacuity=vacuity, force_degrade=force)
+            meta = extract.build_unit(unit, workdir, vacuity=vacuity, force_degrade=force, skip_variants=skipv)
     except extract.ExtractError as e:
         out.update(status='undecided', reason='extract: %s' % e)
         return out
@@ -263,15 +264,22 @@ def build_and_run(unit, workdir, vacuity=False, rlimit=None, force=None, attempt
     # a construct the verifier rejects inside ONE contracted function / slice (e.g. an std method without a specification
     # that an edit introduced) should cost only that item: rebuild with the item degraded (signature-only / left out) and
     # try again, so that the other obligations of the unit are still decided
-    if r['status'] == 'undecided' and r['tool_errors'] and attempt < 3:
+    if r['status'] == 'undecided' and r['tool_errors'] and attempt < 4:
         kinds = {rg['name']: rg['kind'] for rg in meta['regions']}
         culprits = {}
+        again = False
         for e in r['tool_errors']:
             if e.get('region') and kinds.get(e['region']) == 'item' and e['region'] not in force:
-                culprits[e['region']] = e['message'][:160]
-        if culprits:
+                used, nvar = meta.get('variants', {}).get(e['region'], (0, 1))
+                if used + 1 < nvar:
+                    # the item has another overlay variant (`//@ alt`, e.g. for the shape before a repair): try that first
+                    skipv[e['region']] = used + 1
+                    again = True
+                else:
+                    culprits[e['region']] = e['message'][:160]
+        if culprits or again:
             force.update(culprits)
-            return build_and_run(unit, workdir, vacuity=vacuity, rlimit=rlimit, force=force, attempt=attempt + 1)
+            return build_and_run(unit, workdir, vacuity=vacuity, rlimit=rlimit, force=force, attempt=attempt + 1, skipv=skipv)
     out.update(r)
     out['wall_s'] = round(time.time() - t0, 2)
     with open(os.path.join(workdir, unit + ('_vac' if vacuity else '') + '.stderr.txt'), 'w') as fh:
